@@ -30,13 +30,20 @@ func main() {
 			fmt.Fprintln(os.Stderr, err)
 			os.Exit(2)
 		}
+		keys := map[string]bool{}
 		for key := range cs.Funcs {
+			keys[key] = true
+		}
+		for _, k := range os.Args[4:] {
+			keys[k] = true // further functions (named in check files)
+		}
+		for key := range keys {
 			if fn := p.Funcs[key]; fn != nil {
 				var ns []string
 				for _, prm := range fn.Params {
 					ns = append(ns, prm.Name())
 				}
-				fmt.Printf("%s(%s)\n", key, strings.Join(ns, ", "))
+				fmt.Printf("%s(%s) locals %s\n", key, strings.Join(ns, ", "), strings.Join(eng.NamedLocals(fn), ", "))
 			}
 		}
 	default:
